@@ -71,15 +71,15 @@ def history(rnd):
                 schema = schema.update_obj(t, {'bases': olist(nb), 'ancestors': olist(nb)})
             elif op == 'reset' and (scalars or props):
                 # several fields at once through update_obj, some of them reset to None (what ALTER ... RESET does)
-                if props and rnd.random() < 0.5: schema = schema.update_obj(rnd.choice(props), {'target': None, 'required': True})
+                if props and (not scalars or rnd.random() < 0.5): schema = schema.update_obj(rnd.choice(props), {'target': None, 'required': True})
                 else: schema = schema.update_obj(rnd.choice(scalars), {'bases': None, 'ancestors': None})
             elif op == 'setfield' and props and scalars:
                 schema = schema.set_obj_field(rnd.choice(props), 'target', rnd.choice(scalars))
             elif op == 'unset' and (props or scalars):
-                if props and rnd.random() < 0.5: schema = schema.unset_obj_field(rnd.choice(props), 'target')
+                if props and (not scalars or rnd.random() < 0.5): schema = schema.unset_obj_field(rnd.choice(props), 'target')
                 else: schema = schema.unset_obj_field(rnd.choice(scalars), rnd.choice(['bases', 'ancestors']))
             elif op == 'delete' and (props or scalars):
-                pool = props if props and rnd.random() < 0.6 else scalars
+                pool = props if props and (not scalars or rnd.random() < 0.6) else scalars
                 o = rnd.choice(pool); pool.remove(o); schema = schema._delete(o)
             else: continue
         except Exception as e:
